@@ -126,6 +126,41 @@ def _selfcheck():
         raise AnalysisError('internal: mutability classifier broken')
 
 
+def per_instance_problems(repo: Repo, c) -> List[str]:
+    """H2 core (shared with C09.N6 and C11.Q6): mutable state of a per-association class is created per instance --
+    no class-level mutable that is mutated through self without being re-bound in __init__, no attribute initialised
+    with a module-level mutable."""
+    probs: List[str] = []
+    ini = c.methods.get('__init__')
+    for k in c.mro():
+        if k.module.name not in repo.modules:
+            continue
+        for attr, val in k.attrs.items():
+            if is_mutable_expr(val):
+                assigned = ini is not None and any(attr_chain(t) == ('self', attr) for n in ast.walk(ini.node)
+                                                   if isinstance(n, ast.Assign) for t in n.targets)
+                mutated = []
+                for m in c.mro():
+                    for fn in m.methods.values():
+                        for n in ast.walk(fn.node):
+                            if isinstance(n, ast.Call) and isinstance(n.func, ast.Attribute) and n.func.attr in MUTATORS \
+                                    and attr_chain(n.func.value) == ('self', attr):
+                                mutated.append('%s line %d' % (fn.qualname, n.lineno))
+                            if isinstance(n, ast.Assign):
+                                for t in n.targets:
+                                    if isinstance(t, ast.Subscript) and attr_chain(t.value) == ('self', attr):
+                                        mutated.append('%s line %d' % (fn.qualname, n.lineno))
+                if mutated and not assigned:
+                    probs.append('class-level %s %s.%s is shared by all instances and mutated through self (%s)'
+                                 % (type(val).__name__.lower(), k.name, attr, ', '.join(mutated[:3])))
+    if ini is not None:
+        modmut = {n for n, vs in c.module.assigns.items() if is_mutable_expr(vs[-1])}
+        for n in ast.walk(ini.node):
+            if isinstance(n, ast.Assign) and isinstance(n.value, ast.Name) and n.value.id in modmut:
+                probs.append('self attribute initialised with the module-level mutable %s' % n.value.id)
+    return probs
+
+
 def run(repo, rep):
     _selfcheck()
     rep.assume('NOT DECIDED by this family: behaviour under concrete thread interleavings, independence of failures')
@@ -174,38 +209,10 @@ def run(repo, rep):
     # ---------------------------------------------------------------- H2
     for mod, cname in PER_ASSOC_CLASSES:
         c = repo.cls(mod, cname)
-        probs = []
         ini = c.methods.get('__init__')
         if ini is not None:
             rep.analysed(ini)
-        # class-level mutables mutated through self
-        for k in c.mro():
-            if k.module.name not in repo.modules:
-                continue
-            for attr, val in k.attrs.items():
-                if is_mutable_expr(val):
-                    assigned = ini is not None and any(attr_chain(t) == ('self', attr) for n in ast.walk(ini.node)
-                                                       if isinstance(n, ast.Assign) for t in n.targets)
-                    mutated = []
-                    for m in c.mro():
-                        for fn in m.methods.values():
-                            for n in ast.walk(fn.node):
-                                if isinstance(n, ast.Call) and isinstance(n.func, ast.Attribute) and n.func.attr in MUTATORS \
-                                        and attr_chain(n.func.value) == ('self', attr):
-                                    mutated.append('%s line %d' % (fn.qualname, n.lineno))
-                                if isinstance(n, ast.Assign):
-                                    for t in n.targets:
-                                        if isinstance(t, ast.Subscript) and attr_chain(t.value) == ('self', attr):
-                                            mutated.append('%s line %d' % (fn.qualname, n.lineno))
-                    if mutated and not assigned:
-                        probs.append('class-level %s %s.%s is shared by all instances and mutated through self (%s)'
-                                     % (type(val).__name__.lower(), k.name, attr, ', '.join(mutated[:3])))
-        # attributes assigned in __init__ must not alias a module-level mutable
-        if ini is not None:
-            modmut = {n for n, vs in c.module.assigns.items() if is_mutable_expr(vs[-1])}
-            for n in ast.walk(ini.node):
-                if isinstance(n, ast.Assign) and isinstance(n.value, ast.Name) and n.value.id in modmut:
-                    probs.append('self attribute initialised with the module-level mutable %s' % n.value.id)
+        probs = per_instance_problems(repo, c)
         rep.check(not probs, 'C20.H2', '%s:%s:per-instance-state' % (mod, cname), c.loc(),
                   'state is created per instance', '; '.join(probs))
     probs = []
